@@ -100,6 +100,29 @@ class C19(Prop):
             p = scale_free_cut_off(case["alpha"], case["kappa"]); ks = list(range(1, 61))
         vals = [float(p(k)) for k in ks]
         obs = {"ks": ks, "vals": [repr(v) for v in vals]}
+        # a value depends on (parameters, k) only: a second function from the same factory, swept downwards from far in the tail
+        # (where the values underflow), and the first one asked again out of order, must repeat the values above
+        make = {"exponential": lambda: exponential(case["a"]), "poisson": lambda: poisson(case["mean"]),
+                "power_law": lambda: power_law(case["alpha"]),
+                "scale_free_cut_off": lambda: scale_free_cut_off(case["alpha"], case["kappa"])}[fam]
+        p2 = make()
+        order = []
+        try:
+            down = {}
+            for k in range(170, ks[0] - 1, -1):
+                try:
+                    down[k] = float(p2(k))
+                except (OverflowError, ZeroDivisionError):
+                    if k <= ks[-1]:
+                        raise              # beyond the judged range a power may overflow for large parameters: not judged here
+            again = {k: float(p(k)) for k in (ks[-1], ks[0], ks[len(ks) // 2], ks[0])}
+            for k, v in zip(ks, vals):
+                for w in (down[k], again.get(k, v)):
+                    if repr(w) != repr(v):
+                        order.append([k, repr(v), repr(w)])
+        except Exception as e:
+            order.append([-1, "", type(e).__name__ + ": " + str(e)[:80]])
+        obs["order_dependent"] = order[:3]
         # degrees handed over as NumPy integers (e.g. np.arange over the support) name the same k
         if fam != "power_law" or isinstance(case["alpha"], float):
             bad = []
@@ -156,6 +179,9 @@ class C19(Prop):
             k = next(k for k, v in zip(ks, obs["vals"]) if v.lstrip("-") in ("inf", "nan"))
             return [f"not-finite: p({k}) = {obs['vals'][ks.index(k)]}"]
         vals = [Decimal(v) for v in obs["vals"]]
+        if obs.get("order_dependent"):
+            k, v, w = obs["order_dependent"][0]
+            f.append(f"depends-on-evaluation-order: p({k}) = {v} in an upward sweep, {w} when the degrees are visited in another order")
         if obs.get("numpy_degrees"):
             k, ty, w = obs["numpy_degrees"][0]
             f.append(f"numpy-degree: p(np.{ty}({k})) = {w} but p({k}) = {obs['vals'][ks.index(k)]}")
